@@ -289,9 +289,92 @@ func checkC02(c *core.Ctx) {
 		completed = append(completed, fmt.Sprintf("k=%d params<=%d", k, pl.maxParams))
 	}
 	c.Set("plans_completed", completed)
+	// constraint-graph shapes: the order in which equivalence classes are built, merged and grounded
+	if !c.Expired() && !c.TooManyViolations() {
+		c02Graphs(c, sc, fc, foi, &seq)
+	}
 	c.Set("max_params", maxParams)
 	// hand corpus: more than 10 type variables (_T10 sorts before _T9)
 	c02Corpus(c, sc, fc, foi)
+}
+
+// c02Graphs enumerates functions `let f p0 .. p(n-1) (n:int) = let s0 = R0 ; let s1 = R1 ; let s2 = R2 ; (s0, s1, s2)`
+// with un-annotated parameters, where each R is one relation between the parameters: a slice literal of two or
+// three of them (puts them into one class), `pi + n` (grounds pi's class), `frt.Fst (pi, n)` (uses pi without
+// constraining it), a pair (no constraint).  All sequences are enumerated: classes of 3+ variables that are
+// grounded through one member and then touched through another, in every order.
+func c02Graphs(c *core.Ctx, sc *impl.Scratch, fc string, foi string, seq *int) {
+	var funcs []*c02Func
+	V := func(i int) fo.Expr { return fo.Var{Name: fmt.Sprintf("p%d", i)} }
+	nStmts := 3
+	maxP := 3
+	if c.Thorough() {
+		maxP = 4
+	}
+	st := explore.Explore(-1, func(ch *explore.Chooser) {
+		np := 3 + ch.Choose(maxP-2)
+		var rels []fo.Expr
+		for k := 0; k < nStmts; k++ {
+			switch ch.Choose(5) {
+			case 0: // [pi; pj]
+				i := ch.Choose(np)
+				j := ch.Choose(np)
+				rels = append(rels, fo.SliceLit{Es: []fo.Expr{V(i), V(j)}})
+			case 1: // [pi; pj; pk]
+				i, j, l := ch.Choose(np), ch.Choose(np), ch.Choose(np)
+				rels = append(rels, fo.SliceLit{Es: []fo.Expr{V(i), V(j), V(l)}})
+			case 2: // pi + n
+				rels = append(rels, fo.BinOp{Op: "+", L: V(ch.Choose(np)), R: fo.Var{Name: "n"}})
+			case 3: // frt.Fst (pi, n)
+				rels = append(rels, fo.App{Fn: "frt.Fst", Args: []fo.Expr{fo.Tuple{Es: []fo.Expr{V(ch.Choose(np)), fo.Var{Name: "n"}}}}})
+			case 4: // (pi, pj)
+				rels = append(rels, fo.Tuple{Es: []fo.Expr{V(ch.Choose(np)), V(ch.Choose(np))}})
+			}
+		}
+		fd := fo.FuncDef{Name: "f"}
+		for i := 0; i < np; i++ {
+			fd.Params = append(fd.Params, fo.Param{Name: fmt.Sprintf("p%d", i)})
+		}
+		fd.Params = append(fd.Params, fo.Param{Name: "n", Type: "int"})
+		var stmts []fo.Stmt
+		var outs []fo.Expr
+		for k, r := range rels {
+			stmts = append(stmts, fo.Let{Name: fmt.Sprintf("s%d", k), Rhs: r})
+			outs = append(outs, fo.Var{Name: fmt.Sprintf("s%d", k)})
+		}
+		fd.Body = &fo.Block{Stmts: stmts, Final: fo.Tuple{Es: outs}}
+		for i := 0; i < np; i++ {
+			if !fo.Uses(fd.Body, fmt.Sprintf("p%d", i)) {
+				ch.Skip("unused parameter")
+			}
+		}
+		f := &c02Func{choices: nil, fc: &fo.FuncCase{Def: fd, Used: map[string]int{"constraint-graph": 1}}}
+		in := c02Inferer(foi)
+		ft, err := in.InferFunc(fd)
+		if err != nil || in.ArithUndetermined() {
+			ch.Skip("out of domain")
+		}
+		*seq++
+		v := &c02Variant{fc: f, mask: -1, name: fmt.Sprintf("f_%d", *seq), wantSig: fo.GoSig(ft, false)}
+		d := fd
+		d.Name = v.name
+		v.src = strings.Join(fo.NewPrinter(nil).Def(d), "\n") + "\n"
+		f.variants = []*c02Variant{v}
+		funcs = append(funcs, f)
+	}, func(ch *explore.Chooser) bool {
+		funcs[len(funcs)-1].choices = append([]int{}, ch.Choices...)
+		if len(funcs) >= 16*350 {
+			ok := c02RunChunk(c, sc, fc, funcs)
+			funcs = nil
+			return ok
+		}
+		return true
+	})
+	if len(funcs) > 0 {
+		c02RunChunk(c, sc, fc, funcs)
+	}
+	c.Count(0, st.States, st.Transitions, 0)
+	c.Set("constraint_graph_functions", st.Executions)
 }
 
 var c02FuncName = regexp.MustCompile(`\bf_\d+\b`)
